@@ -60,6 +60,13 @@ def eval_case(case):
             rv2 = L.call(CAPI[g] + "_unmarshal", out2, exp, 1 if comp else 0, checked) & 1
             if rv2 != 1 or L.unaff(out2.raw, g) != P:
                 msgs.append("C unmarshal(checked=%d) of the library's own encoding fails" % checked)
+            # the destination is re-used: it held the identity, another point, or zero bytes before (decode must set EVERY field)
+            G = ref.G1_GEN if g == 1 else ref.G2_GEN
+            for prev, what in ((L.aff(None, g), "the identity"), (L.aff(G, g), "another point"), (b"\0" * asize, "zero bytes")):
+                dst = L.buf(asize, prev)
+                rv3 = L.call("vk_%s_decode" % n, dst, exp, checked) & 1
+                if rv3 != 1 or L.unaff(dst.raw, g) != P:
+                    msgs.append("decode(checked=%d) into an object that held %s before: rv=%d / other point" % (checked, what, rv3))
         other = ref.encode_point(P, g, not comp)
         rv, out = L.outr("vk_%s_decode" % ENC[(g, not comp)], asize, other, 1)
         if rv != 1 or L.unaff(out, g) != P:
